@@ -1610,7 +1610,9 @@ hwloc__xml_import_memattr(hwloc_topology_t topology,
       /* check the flags of the existing attribute  */
       unsigned long mflags;
       ret = hwloc_memattr_get_flags(topology, _id, &mflags);
-      if (!ret && mflags == flags)
+      if (!ret && mflags == flags
+	  /* Capacity and Locality are computed from the objects, they cannot have stored values */
+	  && _id != HWLOC_MEMATTR_ID_CAPACITY && _id != HWLOC_MEMATTR_ID_LOCALITY)
         id = _id;
     }
     /* if there's no matching attribute, id is -1 and values will be ignored below */
